@@ -17,7 +17,12 @@ use serde::{Deserialize, Serialize};
 pub enum TOp {
     Node(Op),
     Insert { u: usize },
-    Remove { k: usize },
+    /// `sole`: the harness drops its own handle first, so that the container holds the only one
+    Remove {
+        k: usize,
+        #[serde(default)]
+        sole: bool,
+    },
     Get { k: usize },
     Index { k: usize },
     Contains { k: usize },
@@ -121,7 +126,21 @@ fn exec<F: Flavour>(w: &mut World<F>, op: &TOp) -> Obs {
             let n = w.nodes[*u].clone();
             Obs::Bool(F::g_insert(w.graph.as_mut().unwrap(), n))
         }
-        TOp::Remove { k } => Obs::OptKey(F::g_remove(w.graph.as_mut().unwrap(), *k).map(|n| F::key(&n))),
+        TOp::Remove { k, sole } => {
+            let own_is_member = *k < w.nodes.len() && F::g_get(w.graph.as_ref().unwrap(), *k).map(|n| F::vid(&n)) == Some(F::vid(&w.nodes[*k]));
+            if *sole && own_is_member {
+                let own = std::mem::replace(&mut w.nodes[*k], F::node_new(*k, crate::payload::NVal::new(0, 999_999)));
+                drop(own);
+                let r = F::g_remove(w.graph.as_mut().unwrap(), *k);
+                let o = Obs::OptKey(r.as_ref().map(|n| F::key(n)));
+                if let Some(n) = r {
+                    w.nodes[*k] = n;
+                }
+                o
+            } else {
+                Obs::OptKey(F::g_remove(w.graph.as_mut().unwrap(), *k).map(|n| F::key(&n)))
+            }
+        }
         TOp::Get { k } => Obs::OptKey(F::g_get(w.graph.as_ref().unwrap(), *k).map(|n| F::key(&n))),
         TOp::Index { k } => {
             // indexing a key that is not a member panics by contract (like HashMap): not called
@@ -370,7 +389,7 @@ impl Engine for Twin {
                     m.step(&op);
                     TOp::Node(op)
                 }
-                55..=58 => TOp::Remove { k },
+                55..=58 => TOp::Remove { k, sole: rng.chance(1, 3) },
                 59..=62 => TOp::Insert { u: rng.below(n) },
                 63..=64 => TOp::Get { k },
                 65 => TOp::Index { k: rng.below(n) },
@@ -528,7 +547,7 @@ impl Engine for Twin {
                 || sc.ops.iter().any(|o| match o {
                     TOp::Node(op) => gen::remap_op(op, k).is_none(),
                     TOp::Insert { u } => *u == k,
-                    TOp::Remove { k: x } | TOp::Get { k: x } | TOp::Index { k: x } | TOp::Contains { k: x } => *x == k,
+                    TOp::Remove { k: x, .. } | TOp::Get { k: x } | TOp::Index { k: x } | TOp::Contains { k: x } => *x == k,
                     TOp::EdgeEq { u, v, .. } | TOp::EdgeCmp { u, v, .. } | TOp::NodeCmp { u, v } => *u == k || *v == k,
                     TOp::EdgeReverse { u, .. } | TOp::IterInto { u } => *u == k,
                     TOp::PathInfo { root, spec } => *root == k || spec.target == Some(k),
